@@ -656,7 +656,26 @@ def m0_callbacks():
     return m
 
 
-M0 = [m0_core, m0_slices, m0_callbacks]
+def m0_results():
+    """Result records over many (ok, err) primitive pairs: back ends that cache/naming-mangle their result
+    helper types must keep records of different width/kind apart."""
+    m = Module("m0_results")
+    P = Prim
+    m.add(EnumDef("Code", [("Low", -1), ("Mid", None), ("High", 40000)]))
+    m.add(OpaqueDef("Rs"))
+    oks = [("unit", None), ("u8", P("u8")), ("i64", P("i64")), ("f64", P("f64")), ("en", EnumT("Code"))]
+    errs = [("unit", None), ("u8", P("u8")), ("i16", P("i16")), ("u32", P("u32")), ("i64", P("i64")), ("f32", P("f32")), ("f64", P("f64")),
+            ("bool", P("bool")), ("en", EnumT("Code")), ("ch", P("DiplomatChar"))]
+    for on, o in oks:
+        for en, e in errs:
+            m.method("Rs", "r_%s_%s" % (on, en), None, [], Res(o, e, "std"))
+    for on, o in oks[1:]:
+        m.method("Rs", "o_%s" % on, None, [("x", Opt(o, "std"))], Opt(o, "std"))
+    m.method("Rs", "new", None, [], OpaqueBox("Rs"))
+    return m
+
+
+M0 = [m0_core, m0_slices, m0_callbacks, m0_results]
 
 
 # ------------------------------------------------------------------------------------------------
